@@ -25,6 +25,8 @@ impl CasManager {
         operation: CasIoOperation,
     ) -> Result<(File, PathBuf), CasManagerError> {
         let cas_path = self.paths.cas_file_path(blob_hash);
+        #[cfg(feature = "verif")]
+        crate::verif::point("F:read_open");
         match File::open(&cas_path) {
             Ok(file) => Ok((file, cas_path)),
             Err(e) => Err(CasManagerError::FileOperation { operation, path: cas_path, source: e }),
